@@ -340,7 +340,8 @@ def expected_cases(draw, n_max: int, procs):
     R = draw(st.integers(1, 3))
     games, cls = draw(game_specs(n, R, sam_ok=False))
     nexp = (1 << n) - n - 2
-    T = draw(st.sampled_from([t for t in (3, 4, 2, 5, 1) if t <= nexp]))
+    # the whole horizon at n = 3 (the last reveal is where l-inf finally drops after a plateau), short ones otherwise
+    T = draw(st.sampled_from(([nexp, nexp] if n == 3 else []) + [t for t in (3, 4, 2, 5, 1) if t <= nexp]))
     return {"kind": "expected", "cfg": {"n": n, "games": games, "computer": draw(st.sampled_from(["superadditive", "superadditive_cached"])),
                                          "gap": draw(st.sampled_from(["linf_norm", "exploitability", "linf_norm", "l1_norm"])), "budget": None},
             "repetitions": R, "max_steps": T, "procs": procs, "rng": draw(st.sampled_from([None, None, 5])),
@@ -359,7 +360,7 @@ def plan(tier: str) -> list[dict]:
     if tier == "quick":
         return ([{"mode": "states", "n_min": 4, "n_max": 5, "examples": 60, "cost": 4} for _ in range(5)]
                 + [{"mode": "n3", "examples": 8, "cost": 3}]
-                + [{"mode": "expected", "n_max": 4, "examples": 5, "procs": [1, 2], "cost": 6} for _ in range(3)])
+                + [{"mode": "expected", "n_max": 4, "examples": 6, "procs": [1, 2], "cost": 6} for _ in range(5)])
     return ([{"mode": "states", "n_min": 4, "n_max": 5, "examples": 500, "cost": 10} for _ in range(8)]
             + [{"mode": "n3", "examples": 60, "cost": 6} for _ in range(2)]
             + [{"mode": "expected", "n_max": 4, "examples": 40, "procs": [1, 2, 4], "cost": 12} for _ in range(6)])
